@@ -53,6 +53,9 @@ CLAIMED = {
     "C11": ("Over the model of Model/Crash.v (solver thread || writer/finalizer thread || Crash, Orbax's tmp-write-rename-then-delete protocol): an invariant preserved by EVERY atomic step of every interleaving shows that after any finite execution, crash at any point included, restore finds either nothing or an intact step holding exactly the state of the iteration it is labelled with, never older than the last executed commit; the invariant survives restart on whatever a crash left (chains); continuing reaches the uninterrupted result (C09); the snapshot-at-call-time assumption is shown load bearing by a refutation of the variant without it. Validated on the real code by SIGKILL experiments: seeded random times, SAVE-BEGIN/END markers, and inotify-staged points (tmp directory creation, first file, rename, deletion of an old step), 1-3 crash rounds, all five solvers, sync/async; the restored state is compared with the independently recomputed trajectory and the model.",
             "Coq 8.16.1 kernel; Orbax's protocol, POSIX rename atomicity, filesystem and kill semantics are MODELLED (trusted), the real writer thread's interleavings are sampled by kill experiments, not enumerated.",
             "Coq proof of a crash invariant over all interleavings of a protocol model + staged SIGKILL experiments", "6 C11"),
+    "C20": ("About definitions translated from the source on every run: each of the nine validators accepts EXACTLY its documented domain (iff, all parameter values) and rejects with ValueError/TypeError; the number format is well formed for every threshold magnitude and for a non-finite threshold; thresholds are defined for every accepted (gamma != 0, epsilon) (gamma = 0 is IEEE +infinity, outside the rational model, checked by execution); the three construction routes build the same configuration and double precision gives float64 in both construction orders (both were false on the unfixed tree: two fix commits). Tied by FRESH-process constructions: solver class x route x order x boundary grid x shipped problems, accepted sets must solve and agree across routes, rejected sets must raise at construction, and the translated validators are evaluated against the outcomes.",
+            "Coq 8.16.1 kernel; translators gen_validators.py / gen_threshold.py / gen_routes.py; Hydra/OmegaConf and dataclass validation-on-construction are third-party behaviour validated by execution; NaN/inf parameters outside the model.",
+            "Coq proof over source-translated validators/format/route facts + fresh-process construction grid", "6 C20"),
 }
 
 man = {
